@@ -26,9 +26,9 @@ using sim::Stats;
 
 namespace {
 
-enum FaultId { F_preemption, F_child_first, F_parent_first, F_lock_contention, F_forced_yield };
+enum FaultId { F_preemption, F_child_first, F_parent_first, F_lock_contention };
 const char* const kFaultNames[] = { "preemption", "child_runs_first_at_create", "parent_runs_first_at_create",
-                                    "mutex_contention", "yield_in_spin_loop" };
+                                    "mutex_contention" };
 enum ProbeId { P_singleton_run, P_managed_run, P_two_threads_inside_instance, P_lock_waited,
                P_query_while_running, P_query_before_start, P_query_after_finish, P_child_ran_before_ctor_end,
                P_join_explicit, P_join_by_destructor, P_observer_thread, P_reset_between_rounds,
@@ -397,9 +397,13 @@ private:
       if (two_types) st.probe( P_two_singleton_types);
       Probe::reset();
       ProbeB::reset();
+      // everything is read from the plan BEFORE the simulated region starts:
+      // inside it every load of non-stack memory is a schedule point, and
+      // whether the plan object lives on the stack or on the heap must not matter
+      const bool  persistent = plan.geti( "persistent", 0) != 0;
       int  max_inside_all = 0;
       sim::schedBegin( sh.cfg);
-      if (plan.geti( "persistent", 0) != 0)
+      if (persistent)
       {
          st.probe( P_persistent_threads);
          std::vector< std::vector< Slot>>  slots( static_cast< size_t>( rounds), std::vector< Slot>( static_cast< size_t>( k)));
